@@ -3164,6 +3164,10 @@ func (bc *Blockchain) IsTxStillRelevant(t *transaction.Transaction, txpool *memp
 	if t.ValidUntilBlock <= curheight {
 		return false
 	}
+	// Signers can be blocked by the block just processed.
+	if bc.policy.CheckPolicy(bc.dao, t) != nil {
+		return false
+	}
 	if txpool == nil {
 		if bc.dao.HasTransaction(t.Hash(), t.Signers, curheight, bc.GetMaxTraceableBlocks()) != nil {
 			return false
